@@ -1,18 +1,140 @@
-"""C20 — writes exclude and cancel concurrent readers; results never mix revisions."""
+"""C20 — writes exclude and cancel concurrent readers; results never mix revisions.
+
+Stage 1 (conc engine, unchanged): the writer/reader machine + replay of hook-H6 event traces of
+the `writer` profile (acyclic and simple cyclic programs) under the OS-thread baton scheduler.
+
+Stage 2 (par-cycle engine, harness-par bin cyc_par on OS threads): the clause "no value computed
+for the old revision is ever returned in the new revision, INCLUDING PROVISIONAL FIXPOINT RESULTS
+ABANDONED BY THE CANCELLATION".  Generated programs with NESTED fixpoints (outer head -> inner
+head -> step -> {inner, outer}, input-conditional edges, further nested / side cycles); one or two
+reader handles enter them; at the k-th tracked-function body execution of the group — for every k
+up to 12, i.e. at every point of the nested iteration — the reader is held until the main
+handle's write has set the cancellation flag (it then unwinds with Cancelled::PendingWrite from
+inside the iteration it had reached, abandoning whatever provisional memos exist), or the body
+panics there (the single-threaded analogue: the iteration is abandoned by unwinding, C22's
+clause).  The write shrinks an input the program reads, so that an abandoned provisional value of
+the old revision would be a non-least fixpoint of the new equations.  After the write EVERY member
+is read on the main handle and compared with the specification of the NEW snapshot (`kleene`,
+computed by the extracted cycle driver); a second cancelled group and a second read-all follow.
+Reader results of the cancelled group must be the OLD snapshot's value, PendingWrite,
+PropagatedPanic (known finding blocked-reader) or the injected panic.  A wrong value that the
+same history WITHOUT cancellation (the harness' single-threaded REF run) returns as well is the
+cycle engine's known finding, not a finding of this stage."""
+import os
+import time
+
 from checks import conccheck
+from checks import parcheck
+from vplib import common
+from vplib import parengine as pe
 
 NOTE = ("Proved for any number of handles and every interleaving of the writer/reader machine: C20_exclusive (mutation "
         "only with clones = 1 and Arc count 1), C20_cancelled (a check with the flag set unwinds; local token tested "
         "first), C20_progress (well-founded measure on live readers; writer's wait enabled at 0), C20_no_mix_stamp "
         "(after the count bump every earlier provisional stamp is rejected; u8 overflow forces a new revision). "
         "Composition with the evaluator ('every result equals from-scratch after the write') is checked per explored "
-        "schedule by the harness, not proved. Known finding: a reader BLOCKED on another reader's query unwinds with "
-        "PropagatedPanic rather than PendingWrite.")
+        "schedule by the harness, not proved: stage 1 on the conc engine's writer profile, stage 2 (nested fixpoints: readers "
+        "cancelled, or panicking, at every point of a nested fixpoint iteration, then every member compared with the least "
+        "fixpoint of the new snapshot) on the par-cycle engine. Known finding: a reader BLOCKED on another reader's query "
+        "unwinds with PropagatedPanic rather than PendingWrite.")
+
+ACCEPT = ("p8", "p7", "p5")
+HOLD_POINTS = 12
+
+
+def nested_stage(ctx):
+    """-> coverage dict; violations are reported through ctx"""
+    t0 = time.time()
+    harness = parcheck.build_cyc_harness(std=True)
+    driver = parcheck.build_cycle_driver()
+    quick = ctx.tier == "quick"
+    nbase = 30 if quick else 220
+    iters = 2 if quick else 3
+    base = list(pe.corpus("C20")) + pe.generate_w(ctx.seed, nbase, "quick" if quick else "thorough", prefix="w")
+    cases = []
+    for c in base:
+        cid = c.split()[1]
+        ngroups = c.count("(wpar ")
+        for at in range(1, HOLD_POINTS + 1):
+            for mode in (1, 2):
+                settings = [(mode, at)] + [(mode, 1 + (at * 7 + g) % 9) for g in range(1, ngroups)]
+                cases.append(pe.with_hold(c, f"{cid}-m{mode}a{at}", settings))
+    spec = pe.specification18(cases, driver)
+    out, hung = pe.run_harness18(cases, harness, iters, "os", ctx.seed, trace_cap=0)
+    findings, known = [], []
+    outcomes = {}
+    for c in cases:
+        cid = c.split()[1]
+        fs, kn = pe.check_case18(cid, spec[cid], out, accept=ACCEPT)
+        known += [(cid, k) for k in kn]
+        for f in fs:
+            if f["kind"] == "harness" and not hung:
+                raise common.CheckError(f"cyc_par produced no usable output for {cid}: {f}")
+            if f["kind"] != "harness":
+                findings.append((c, f))
+        for it in out.get(cid, {}).get("iters", []):
+            for key, v in pe.parse_results(it["r"]).items():
+                if v.startswith("p"):
+                    outcomes[v] = outcomes.get(v, 0) + 1
+    findings.sort(key=lambda x: (0 if x[1]["kind"] == "failure" else 1, len(x[0])))
+    seen = set()
+    for c, f in findings:
+        b = c.split()[1].split("-")[0]
+        if b in seen or len(seen) >= 3:
+            continue
+        seen.add(b)
+        what = ("a reader was cancelled (or panicked) inside a nested fixpoint iteration; after the write a read returned a "
+                "value different from the least fixpoint of the new snapshot, although the same history without "
+                "cancellation returns the specification: a result computed for the old revision leaked into the new one"
+                if f["kind"] == "values" else
+                "the cancelled-reader workload hung / failed" if f["kind"] == "failure" else
+                "the single-threaded reference run differs from the specification on a fresh database")
+        ctx.violation(dict(kind=what, case=c, scheduler="os", harness_seed=ctx.seed, iteration=f["iter"],
+                           iters_to_run=max(iters, 4), finding=f, engine="par-cycle", os_threads=True, accept=list(ACCEPT),
+                           failing_history="the history of `case`: (wpar MODE AT (T reads..) (W write)) = reader(s) held at the AT-th "
+                                           "body execution (MODE 1: released by the write's cancellation flag and unwound with "
+                                           "PendingWrite; MODE 2: the body panics), then the write, then the reads listed; "
+                                           "finding.detail.request = (operation index, handle, position) of the read that returned "
+                                           "`got` where the new snapshot's least fixpoint is `want`",
+                           how_to_replay="./vp replay <this file>  (re-runs the case on OS threads; deterministic for one reader)"))
+    if known:
+        ctx.known_finding(f"class=cycle_participant_validated_on_incomplete_edges (C12) met in stage 2: {len(known)} reads differ from "
+                          "the specification in the cancelled run AND in the same history without cancellation")
+    st = pe.stats18(out)
+    after_reads = sum(1 for s in spec.values() for k in s["spec"] if s["rev"][k[0]] > 0)
+    return {
+        "nested_base_programs": len(base), "nested_cases": len(cases), "nested_repetitions_per_case": iters,
+        "nested_schedules": st["schedules"],
+        "nested_hold_point_reached": st["hold_reached"],
+        "nested_hold_point_inside_a_fixpoint_iteration": st["hold_inside_fixpoint_iteration"],
+        "nested_reader_outcomes": {"PendingWrite": outcomes.get("p8", 0), "PropagatedPanic": outcomes.get("p7", 0),
+                                   "injected_panic": outcomes.get("p5", 0),
+                                   "other": {k: v for k, v in outcomes.items() if k not in ACCEPT}},
+        "nested_reads_after_a_write_compared_with_kleene_per_repetition": after_reads,
+        "nested_findings": len(findings), "nested_known_class_differences": len(known),
+        "nested_hung": bool(hung),
+        "nested_wall_s": round(time.time() - t0, 1),
+    }
 
 
 def run(ctx):
+    # stage 1 writes the evidence; stage 2 is merged into it afterwards
     conccheck.run(ctx, "writer", NOTE, known_obs="reader_propagated_panic")
+    cov = nested_stage(ctx)
+    ctx.coverage.update(cov)
+    ctx.coverage["evaluations"] = ctx.coverage.get("evaluations", 0) + cov["nested_schedules"]
+    ctx.coverage["distinct_nontrivial"] = ctx.coverage.get("distinct_nontrivial", 0) + cov["nested_hold_point_inside_a_fixpoint_iteration"]
+    ctx.coverage["rule"] = (ctx.coverage.get("rule", "") + "; stage 2: one evaluation = one repetition of one (program, hold point, "
+                            "mode) case on OS threads, counted non-trivial when the hold point was reached after a "
+                            "WillIterateCycle event (the reader was inside a fixpoint iteration when it was cancelled / panicked)")
+    ctx.coverage["trusted_base"] = ctx.coverage.get("trusted_base", []) + [
+        "stage 2: the hold point (harness, inside the DSL interpreter) and the DidSetCancellationFlag event decide where the reader "
+        "is cancelled; the specification column is `kleene` of the extracted cycle driver"]
+    ctx.coverage["wall_s"] = round(ctx.coverage.get("wall_s", 0) + cov["nested_wall_s"], 1)
+    ctx.write_evidence("proof")
 
 
 def replay(ctx, rp):
+    if rp.get("engine") == "par-cycle":
+        return parcheck.replay18(ctx, rp, std=True)
     return conccheck.replay(ctx, rp)
